@@ -17,6 +17,9 @@ func (sp *Spec) Files() map[string]string {
 	out := map[string]string{}
 	out["types.go"] = sp.renderTypes()
 	out["providers.go"] = sp.renderProviders()
+	if v := sp.renderGeneratedVars(); v != "" {
+		out["zz_generated.go"] = v
+	}
 	for f := 0; f < sp.NFiles; f++ {
 		out[fmt.Sprintf("k%d.go", f)] = sp.renderDecl(f)
 	}
@@ -201,6 +204,22 @@ func (sp *Spec) renderProviders() string {
 	return b.String()
 }
 
+// renderGeneratedVars: package-level variables in a file that carries another tool's "Code generated" header.
+func (sp *Spec) renderGeneratedVars() string {
+	var b strings.Builder
+	for i := range sp.Providers {
+		p := &sp.Providers[i]
+		if p.Form == "value" && p.VarRef != "" {
+			t := &sp.Types[p.Out[0]]
+			fmt.Fprintf(&b, "var %s = %s(\"VAL(%s)\")\n\n", p.VarRef, mkName(t), p.Name)
+		}
+	}
+	if b.Len() == 0 {
+		return ""
+	}
+	return "// Code generated by buildinfo-gen. DO NOT EDIT.\n\npackage " + sp.Pkg + "\n\n" + b.String()
+}
+
 func (sp *Spec) useExpr(u *Use) string {
 	p := &sp.Providers[u.Prov]
 	var e string
@@ -222,6 +241,10 @@ func (sp *Spec) useExpr(u *Use) string {
 		e = fmt.Sprintf("kessoku.Provide(func(%s) (%s) { return %s(%s) })", strings.Join(params, ", "), strings.Join(rets, ", "), p.Name, strings.Join(args, ", "))
 	case "value":
 		t := &sp.Types[p.Out[0]]
+		if p.VarRef != "" {
+			e = "kessoku.Value(" + p.VarRef + ")"
+			break
+		}
 		e = fmt.Sprintf("kessoku.Value(%s(\"VAL(%s)\"))", mkName(t), p.Name)
 	case "struct":
 		e = fmt.Sprintf("kessoku.Struct[%s]()", sp.Types[p.Struct].Expr())
